@@ -109,6 +109,10 @@ def chainStep (s : ChainSt) (toks : List String) : ChainSt × String :=
       match parseReplies s.names b rs {} with
       | none => (s, "bad-op")
       | some c => ({ s with cfg := (b.hash, c) :: s.cfg }, "ok")
+  | ["fetch-overlap", nm, sw] =>
+    -- a second, complete `Get` of the same hash during the fetch (its own fetch unanswered) changes nothing: the
+    -- store is re-read after every fetch, whoever cancelled or did not cancel it
+    if (s.names.lookup nm).isNone || (sw != "on" && sw != "off") then (s, "bad-op") else (s, "ok")
   | ["extends", bn, tn] =>
     match s.names.lookup bn, s.names.lookup tn with
     | some b, some t =>
